@@ -16,6 +16,11 @@ CONSTANTS
   DevSleepLimiter = FALSE
   DevWriteLock = FALSE
   DevRouteFirst = TRUE
+  DevCleanupFirst = FALSE
+  DevLegRegistered = FALSE
+  DevBufio = FALSE
+  AttachKinds = {"local"}
+  HoldOn = FALSE
   Gen = FALSE
   Emit = FALSE
 SPECIFICATION LiveSpec
